@@ -1175,7 +1175,8 @@ class RecordTensor(ShapedTensor):
         # reconstrain if required
         if size != self.__recordsz:
             with torch.no_grad():
-                self.align(0)
+                if not self._ignore(self.__data):
+                    self.align(0)
                 _ = ShapedTensor.reconstrain(self, 0, size)
 
     @property
@@ -1215,7 +1216,8 @@ class RecordTensor(ShapedTensor):
         # reconstrain if required
         if size != self.__recordsz:
             with torch.no_grad():
-                self.align(0)
+                if not self._ignore(self.__data):
+                    self.align(0)
                 _ = ShapedTensor.reconstrain(self, 0, size)
 
     @property
